@@ -7,7 +7,7 @@ transition cover (shebang, open/close tags, inline HTML, halt-compiler payload, 
 for scaled programs that cross several 1024-entry allocation blocks."""
 import random
 
-from . import core, syntax, progs, lexgen, inputs, c01, printerout
+from . import core, syntax, progs, lexgen, inputs, c01, printerout, cli
 
 
 def run(tier):
@@ -89,6 +89,16 @@ def run(tier):
             check.violation(sig, {"behaviour": b, "expected_writes": want, "observed_writes": got})
     check.count(len(behs))
     check.cov["output_stage_behaviours"] = len(behs)
+    # the command line tool's -pb (it overwrites the user's files): a directory of programs, templates that start with inline
+    # HTML, files without a closing tag and files with errors; every file must hold what the library prints for it alone
+    rng2 = random.Random(core.seed() + 202)
+    pool = [p["src"] for p in inputs.programs(check, tier) if p["ver"] == "7.4"]
+    files = rng2.sample(pool, min(len(pool), 150 if tier == "quick" else 1500))
+    files += ["<html>\n<body><?php echo 1; ?></body>\n", "<b>x</b>", "<?php echo 1;\n", "<p><?= $a ?></p>\n<?php f();", "<?php $a = ; $b = 1;\n", "plain",
+              "<?php\n$x = 1\n?>\ntail\n", "<?php function f( { }\n$x = 1;"] * 3
+    rng2.shuffle(files)
+    for sig, rep in cli.check_cli(check, wp, files, "7.4", [["-pb"]], procs_list=(1, 16) if tier == "quick" else (1, 2, 4, 16)):
+        check.violation(sig, rep)
     check.cov["traces_validated_against_impl"] = check.cov["evaluations"]
     check.assumptions += ["identity oracle: applies whenever zero errors are reported", "Syntax.tla / lexicon spellings define the input space"]
     return check.finish({"rule": "SyntaxGen derivations x %d layouts x versions; scaled programs (>1024 tokens); error-free Lexer.tla cases; corpus" % len(layouts)})
